@@ -189,6 +189,7 @@ mod c19;
 mod c20;
 mod fragspace;
 mod pmachine;
+mod scale;
 
 pub fn all() -> Vec<PropDef> {
     vec![
